@@ -1,3 +1,449 @@
-use vh::runner::Ctx;
+//! C09 - every raw system-call wrapper of rusl decodes the kernel's return register correctly:
+//! `Err(code)` exactly when the value lies in [-4095, -1] and then `code == +errno`; otherwise
+//! `Ok` carrying the value unchanged under the wrapper's documented conversion; the call is
+//! issued exactly once per invocation (dup2/dup3 may repeat it under -EBUSY only); no panic.
+//!
+//! Engine: the `sc` interposer serves the planned value for every call issued through
+//! `syscall!` on this thread *without executing it*, so fork/execve/mount/setuid are driven
+//! safely. The whole (wrapper x value) table is enumerated; a case is `{wrapper, value}`.
+use std::collections::BTreeSet;
 
-pub fn run(_ctx: &Ctx) {}
+use serde::{Deserialize, Serialize};
+use serde_json::json;
+
+use sc::verif::{Action, Call, Rule, GUARDED_FOREVER};
+use vh::runner::{CaseReport, CaseResult, Ctx, Failure};
+
+mod scan;
+mod table;
+use self::table::{init_fixtures, Conv, Dom, Driven, Wrapper, EXCLUDED, TABLE};
+
+#[derive(Debug, Clone, Serialize, Deserialize)]
+pub struct Case {
+    pub wrapper: String,
+    /// the forced return register as a signed 64-bit number (-errno for errors)
+    pub value: i64,
+}
+
+const SUB: &str = "table";
+const EBUSY: i64 = 16;
+
+fn is_errno_band(v: i64) -> bool {
+    (-4095..=-1).contains(&v)
+}
+
+fn vclass(v: i64) -> &'static str {
+    match v {
+        v if is_errno_band(v) => "errno",
+        0 => "zero",
+        1..=4095 => "confusable success",
+        -4096 => "boundary -4096",
+        v if v > 4095 => "large success",
+        _ => "high unsigned success",
+    }
+}
+
+// ------------------------------------------------------------------------------------------
+// value domains
+// ------------------------------------------------------------------------------------------
+
+fn success_values(dom: Dom, thorough: bool) -> Vec<i64> {
+    let small: Vec<i64> = (3..=133).collect();
+    let mut v: Vec<i64> = match dom {
+        Dom::Zero => vec![0],
+        Dom::Count => vec![0, 1, 16, 4095, 4096, -4097, i64::MAX],
+        Dom::FdPid => [vec![0, 1, 2], small, vec![i32::MAX as i64, 1 << 31]].concat(),
+        Dom::Uid => [vec![0, 1, 2], small, vec![i32::MAX as i64, u32::MAX as i64 - 1]].concat(),
+        Dom::Offset => vec![0, 1, 16, 4095, 1 << 31, 1 << 62],
+        Dom::Addr => vec![0x1000, 0x7fff_ffff_f000],
+        Dom::NoSuccess => return Vec::new(),
+    };
+    // the first value outside the error band: an error under an off-by-one threshold
+    v.push(-4096);
+    if thorough && !matches!(dom, Dom::Zero) {
+        let top = match dom {
+            Dom::FdPid => 31,
+            Dom::Uid => 32,
+            Dom::Addr => 47,
+            _ => 63,
+        };
+        if !matches!(dom, Dom::Addr) {
+            v.extend(0..=4096);
+        }
+        if matches!(dom, Dom::Count | Dom::Offset) {
+            // dense bands: small counts, and the unsigned values just below the error band
+            v.extend(0..=65536);
+            v.extend(-8192..=-4096);
+        }
+        for k in 12..top {
+            v.push(1i64 << k);
+            if !matches!(dom, Dom::Addr) {
+                v.push((1i64 << k) - 1);
+                v.push((1i64 << k) + 1);
+            }
+        }
+    }
+    v.sort_by_key(|&x| (x < 0, x));
+    v.dedup();
+    v
+}
+
+/// errors first (errno ascending), then successes (small first), so that the first failing
+/// value of a wrapper is also the smallest.
+pub fn values(w: &Wrapper, thorough: bool) -> Vec<i64> {
+    let mut v: Vec<i64> = (1..=4095).map(|e| -e).collect();
+    v.extend(success_values(w.dom, thorough));
+    v
+}
+
+// ------------------------------------------------------------------------------------------
+// execution under a plan
+// ------------------------------------------------------------------------------------------
+
+struct Observed {
+    outcome: Result<Driven, (String, String)>,
+    log: Vec<Call>,
+}
+
+fn forced(v: i64) -> usize {
+    v as usize
+}
+
+/// After three -EBUSY answers the kernel lets the dup succeed with this descriptor.
+const EBUSY_THEN: i64 = 5;
+const EBUSY_ROUNDS: usize = 3;
+
+fn plan_for(w: &Wrapper, value: i64) -> Vec<Rule> {
+    let forever = Rule { nr: None, nth: None, action: Action::ForceRet(forced(value)), times: GUARDED_FOREVER };
+    if w.ebusy_retry_documented && value == -EBUSY {
+        // a correct retry loop terminates: EBUSY three times, then success
+        return vec![
+            Rule { nr: None, nth: None, action: Action::ForceRet(forced(-EBUSY)), times: EBUSY_ROUNDS },
+            Rule { nr: None, nth: None, action: Action::ForceRet(forced(EBUSY_THEN)), times: GUARDED_FOREVER },
+        ];
+    }
+    if w.exec_on_success && !is_errno_band(value) {
+        // let the kernel fill the out-parameter once, replace only the return register
+        return vec![Rule { nr: None, nth: Some(0), action: Action::ExecThenRet(forced(value)), times: 1 }, forever];
+    }
+    vec![forever]
+}
+
+fn execute(w: &Wrapper, value: i64) -> Observed {
+    sc::verif::install();
+    sc::verif::plan(plan_for(w, value));
+    sc::verif::log_begin();
+    let outcome = vh::runner::catch(|| (w.drive)());
+    // both on the normal and on the panic path: stop logging, drop the plan (otherwise the
+    // harness's own activity on this thread would be served forced values)
+    let log = sc::verif::log_end();
+    sc::verif::clear_plan();
+    Observed { outcome, log }
+}
+
+// ------------------------------------------------------------------------------------------
+// oracle
+// ------------------------------------------------------------------------------------------
+
+fn expected_scalar(conv: Conv, value: i64) -> Option<i128> {
+    // `None` = only the direction (Ok) is asserted: the value does not fit the Rust type the
+    // wrapper documents, so "unchanged" has no single reading
+    match conv {
+        Conv::Unit => None,
+        Conv::Usize | Conv::U64 => Some((value as u64) as i128),
+        Conv::I32 => (0..=i32::MAX as i64).contains(&value).then_some(value as i128),
+        Conv::U32 => (0..=u32::MAX as i64).contains(&value).then_some(value as i128),
+        Conv::I64 => (value >= 0).then_some(value as i128),
+    }
+}
+
+fn show(d: &Driven) -> String {
+    match d {
+        Ok(None) => "Ok(_)".to_string(),
+        Ok(Some(v)) => format!("Ok({v})"),
+        Err(e) => match e.code {
+            Some(c) => format!("Err(code {}, {:?})", c.raw(), e.msg),
+            None => format!("Err(no code, {:?})", e.msg),
+        },
+    }
+}
+
+pub fn check_case(w: &Wrapper, value: i64) -> CaseResult {
+    let mut rep = CaseReport::new();
+    let name = w.name;
+    let file = w.src.split("::").next().unwrap_or("");
+    let cls = vclass(value);
+    let is_err = is_errno_band(value);
+    if !is_err && w.dom == Dom::NoSuccess {
+        // execve does not return on success: outside the domain (only reachable by replay)
+        rep.class("out-of-domain");
+        return Ok(rep);
+    }
+    let obs = execute(w, value);
+    let ncalls = obs.log.len();
+
+    let driven = match obs.outcome {
+        Ok(d) => d,
+        Err((loc, msg)) => {
+            if msg.contains("re-issued") {
+                let shape = if value == EBUSY { "success value equals EBUSY".to_string() } else { cls.to_string() };
+                return Err(Failure::new(
+                    format!("{name}|retry-forever|{shape}"),
+                    format!(
+                        "{name}: kernel result {value} ({cls}) made the wrapper issue the call again and again ({msg}); expected exactly one call and {} [rusl/src/{file}]",
+                        if is_err { format!("Err(code {})", -value) } else { "Ok".to_string() }
+                    ),
+                ));
+            }
+            return Err(Failure::new(format!("{name}|panic|{loc}"), format!("{name}: panicked at {loc} under kernel result {value} ({cls}): {msg} [rusl/src/{file}]")));
+        }
+    };
+
+    // ---- how often was the call issued
+    let ebusy_case = w.ebusy_retry_documented && value == -EBUSY;
+    let effective = if ebusy_case {
+        // Documented exception: either no retry (one call, Err(EBUSY)) or a retry that stops as
+        // soon as the kernel stops answering EBUSY. The result must decode the LAST answer.
+        rep.class("dup-ebusy");
+        if ncalls == 0 || ncalls > EBUSY_ROUNDS + 1 {
+            return Err(Failure::new(
+                format!("{name}|call-count|EBUSY retry did not stop at the first non-EBUSY answer"),
+                format!("{name}: answers -EBUSY x{EBUSY_ROUNDS} then {EBUSY_THEN}: {ncalls} calls issued, result {} [rusl/src/{file}]", show(&driven)),
+            ));
+        }
+        rep.class_if(ncalls > 1, "dup-ebusy-retried");
+        rep.class_if(ncalls == 1, "dup-ebusy-not-retried");
+        if ncalls <= EBUSY_ROUNDS {
+            -EBUSY
+        } else {
+            EBUSY_THEN
+        }
+    } else {
+        if ncalls != 1 {
+            let shape = if ncalls == 0 { "no call issued" } else { "issued more than once" };
+            return Err(Failure::new(
+                format!("{name}|call-count|{shape}, {cls}"),
+                format!("{name}: kernel result {value} ({cls}): {ncalls} system calls issued, expected exactly 1; result {} [rusl/src/{file}]", show(&driven)),
+            ));
+        }
+        value
+    };
+    let eff_err = is_errno_band(effective);
+
+    // ---- direction and payload
+    if eff_err {
+        let errno = -effective;
+        match &driven {
+            Ok(_) => {
+                return Err(Failure::new(
+                    format!("{name}|error-reported-as-success|errno"),
+                    format!("{name}: kernel result {effective} (errno {errno}) decoded as {}, expected Err(code {errno}) [rusl/src/{file}]", show(&driven)),
+                ))
+            }
+            Err(e) => {
+                let got = e.code.map(|c| c.raw() as i64);
+                if got != Some(errno) {
+                    let shape = match got {
+                        None => "no code",
+                        Some(c) if c == -errno => "negative code",
+                        Some(_) => "different code",
+                    };
+                    return Err(Failure::new(
+                        format!("{name}|wrong-errno|{shape}"),
+                        format!("{name}: kernel result {effective} decoded as {}, expected Err(code +{errno}) [rusl/src/{file}]", show(&driven)),
+                    ));
+                }
+            }
+        }
+    } else {
+        match &driven {
+            Err(e) => {
+                let real_failed = w.exec_on_success && obs.log.first().map(|c| c.executed && c.ret > (-4096isize) as usize).unwrap_or(true);
+                if real_failed && e.code.is_none() {
+                    // the executed call itself was refused by the real kernel (e.g. EMFILE for
+                    // pipe2), so the out-parameter the wrapper inspects was never written: the
+                    // harness could not set the scene - not a verdict on the wrapper
+                    rep.class("side-effect-unavailable");
+                    return Ok(rep);
+                }
+                return Err(Failure::new(
+                    format!("{name}|success-mistaken-for-error|{cls}"),
+                    format!("{name}: kernel result {effective} ({}) is not in [-4095,-1] but was decoded as {} [rusl/src/{file}]", vclass(effective), show(&driven)),
+                ));
+            }
+            Ok(got) => {
+                if let Some(exp) = expected_scalar(w.conv, effective) {
+                    if *got != Some(exp) {
+                        return Err(Failure::new(
+                            format!("{name}|wrong-value|{cls}"),
+                            format!("{name}: kernel result {effective} decoded as {}, expected Ok({exp}) [rusl/src/{file}]", show(&driven)),
+                        ));
+                    }
+                    rep.class("value-compared");
+                } else {
+                    rep.class("direction-only");
+                }
+            }
+        }
+    }
+
+    // ---- bookkeeping
+    rep.nontrivial_if(is_err || (0..=4095).contains(&value));
+    rep.class(match cls {
+        "errno" => "errno",
+        "zero" => "success-zero",
+        "confusable success" => "success-confusable",
+        "boundary -4096" => "boundary-4096",
+        "large success" => "success-large",
+        _ => "success-high-unsigned",
+    });
+    rep.class_if(is_err && -value > 133, "errno-unassigned");
+    rep.class_if(!is_err && w.exec_on_success, "kernel-side-effect-executed");
+    rep.class_if(value == EBUSY, "success-equals-EBUSY");
+    Ok(rep)
+}
+
+// ------------------------------------------------------------------------------------------
+// self-check of the table against the sources (Appendix A)
+// ------------------------------------------------------------------------------------------
+
+fn self_check(ctx: &Ctx) {
+    let excluded: Vec<_> = EXCLUDED.iter().map(|(n, why)| json!({"fn": n, "why": why})).collect();
+    let table_src: BTreeSet<&str> = TABLE.iter().map(|w| w.src).collect();
+    let mut summary = json!({
+        "drivers": TABLE.len(),
+        "distinct_source_functions": table_src.len(),
+        "excluded": excluded,
+    });
+    match scan::rusl_src_dir() {
+        None => {
+            summary["scan"] = json!("rusl sources not found (VERIF_REPO_DIR, manifest path, /repo): table coverage not verified");
+            ctx.extra("uncovered_wrappers", json!(["<scan impossible: sources not found>"]));
+            ctx.inconclusive();
+        }
+        Some(dir) => {
+            let found = scan::scan(&dir);
+            let excl: BTreeSet<&str> = EXCLUDED.iter().map(|(n, _)| *n).collect();
+            let uncovered: Vec<&String> = found.keys().filter(|k| !table_src.contains(k.as_str()) && !excl.contains(k.as_str())).collect();
+            let stale: Vec<&&str> = table_src.iter().filter(|s| !found.contains_key(**s)).collect();
+            summary["scan"] = json!({
+                "dir": dir.display().to_string(),
+                "public_fns_issuing_syscalls": found.len(),
+                "of_which_direct": found.values().filter(|d| **d).count(),
+                "table_entries_not_found_in_sources": stale,
+            });
+            ctx.extra("uncovered_wrappers", json!(uncovered));
+            if !uncovered.is_empty() {
+                eprintln!("[C09] wrappers missing from the driver table: {uncovered:?}");
+                ctx.inconclusive();
+            }
+        }
+    }
+    ctx.extra("table_summary", summary);
+}
+
+// ------------------------------------------------------------------------------------------
+// entry
+// ------------------------------------------------------------------------------------------
+
+fn lookup(name: &str) -> Option<&'static Wrapper> {
+    TABLE.iter().find(|w| w.name == name)
+}
+
+/// Journal the case before executing it (a crash of the worker still leaves its input).
+fn journal(ctx: &Ctx, case: &Case) {
+    let j = json!({"property": ctx.prop, "check": SUB, "case": case});
+    vh::runner::journal_set(j.to_string().as_bytes());
+}
+
+/// `check_case`, with a panic of the harness itself turned into a failure of its own kind.
+fn guarded(w: &Wrapper, value: i64) -> CaseResult {
+    match vh::runner::catch(|| check_case(w, value)) {
+        Ok(r) => r,
+        Err((loc, msg)) => {
+            sc::verif::clear_plan();
+            Err(Failure::new(format!("{}|harness-panic|{loc}", w.name), format!("the harness panicked at {loc}: {msg}")))
+        }
+    }
+}
+
+fn is_known(ctx: &Ctx, sig: &str) -> bool {
+    ctx.known.iter().any(|k| sig == k.signature || (k.signature.ends_with('*') && sig.starts_with(&k.signature[..k.signature.len() - 1])))
+}
+
+pub fn run(ctx: &Ctx) {
+    sc::verif::install();
+    init_fixtures();
+
+    if ctx.is_replay() {
+        if let Some(case) = ctx.replay_case::<Case>(SUB) {
+            ctx.run_one(SUB, &case, || match lookup(&case.wrapper) {
+                Some(w) => check_case(w, case.value),
+                None => Err(Failure::new("table|unknown-wrapper", format!("no driver named {:?} in the table", case.wrapper))),
+            });
+        }
+        return;
+    }
+
+    if ctx.worker == 0 {
+        self_check(ctx);
+    }
+
+    let thorough = ctx.thorough();
+    let nworkers = ctx.nworkers.max(1) as u64;
+    let mut idx: u64 = 0;
+    let mut mine: u64 = 0;
+    for w in TABLE {
+        // Signatures already reported for this wrapper. One failing wrapper must not hide the
+        // others, and one root cause must not hide a second one in the same wrapper: after a
+        // failure the enumeration goes on, skipping only cases that fail with a signature that
+        // has been reported already.
+        let mut reported: BTreeSet<String> = BTreeSet::new();
+        let vals = values(w, thorough);
+        for (pos, &value) in vals.iter().enumerate() {
+            let take = idx % nworkers == ctx.worker as u64;
+            idx += 1;
+            if !take {
+                continue;
+            }
+            mine += 1;
+            let case = Case { wrapper: w.name.to_string(), value };
+            journal(ctx, &case);
+            let res = guarded(w, value);
+            match res {
+                Ok(_) => {
+                    ctx.run_one(SUB, &case, move || res);
+                }
+                Err(f) if reported.contains(&f.sig) => {}
+                Err(f) if is_known(ctx, &f.sig) => {
+                    // recorded as a known-finding hit; the enumeration continues behind it
+                    ctx.run_one(SUB, &case, move || Err(f));
+                }
+                Err(f) => {
+                    // Shrink: the first value in the wrapper's order (errno ascending, then
+                    // successes ascending) that fails with the same signature - whichever
+                    // worker owns it - so every worker reports the same minimal replay.
+                    let mut min = value;
+                    for &m in &vals[..pos] {
+                        journal(ctx, &Case { wrapper: w.name.to_string(), value: m });
+                        if let Err(g) = guarded(w, m) {
+                            if g.sig == f.sig {
+                                min = m;
+                                break;
+                            }
+                        }
+                    }
+                    let mcase = Case { wrapper: w.name.to_string(), value: min };
+                    ctx.run_one(SUB, &mcase, || guarded(w, min));
+                    reported.insert(f.sig);
+                }
+            }
+        }
+    }
+    ctx.extra("pairs_enumerated", json!(mine));
+    ctx.note_exhaustive(format!(
+        "every (wrapper, forced value) pair of the {} table: {} drivers x (errno 1..=4095 + the success classes of the wrapper's result kind)",
+        if thorough { "thorough" } else { "quick" },
+        TABLE.len()
+    ));
+}
